@@ -674,6 +674,9 @@ func excluded(r *rand.Rand, i int) In {
 		s.Mounts = append(s.Mounts, genMount(r, pick(r, bad)))
 		a.Mounts = append(a.Mounts, genMount(r, pick(r, bad)))
 	case 3: // duplicate mount destinations in the original
+		if len(s.Mounts) > 6 {
+			s.Mounts = s.Mounts[:6] // ties + more than 12 elements would leave sort.Sort's insertion-sort range
+		}
 		if len(s.Mounts) > 0 {
 			s.Mounts = append(s.Mounts, genMount(r, s.Mounts[0].Destination))
 		} else {
